@@ -27,7 +27,7 @@ LOG.propagate = False
 
 LINES = ["G28 ; home", "G1 X10 Y10 F3000", "G1 X50 Y50 E1", "  G1 X60 Y60 Z2 ; out", "G1 E-1 F1800", "G1 E1", "; just a comment", "",
          "   ", "M117 hello", "N5 G1 X55 Y55*20", "@ExcludeRegion disable", "@ExcludeRegion enable", "@other thing", "G10", "G11",
-         "M204 S500", "G92 E0", "G91", "G90", "g1 x51 y51", "T0"]
+         "M204 S500", "G92 E0", "G91", "G90", "g1 x51 y51", "T0", "  G10 S1", "G1 X20 Y10 E2"]
 EOLS = ["\n", "\r\n"]
 MAXL = 3 if tier == "quick" else 4
 
@@ -52,11 +52,11 @@ def live_states():
 
 
 def live_hooks(handlers, line):
-    """What the live queuing hooks would send for this line (OctoPrint hands them the normalised command; lines that are
-    neither G-code nor @-commands are sent as they are)."""
+    """What the live queuing hooks would send for this line (OctoPrint hands them the command with comment, line ending
+    and surrounding blanks removed; lines that are neither G-code nor @-commands are sent as they are)."""
     p = GcodeParser().parse(line)
     if p.type is not None:
-        cmd = p.stringify(includeLineNumber=False, includeComment=False, includeEol=False)
+        cmd = p.stringify(includeLeadingWhitespace=False, includeLineNumber=False, includeComment=False, includeEol=False)
         r = handlers.handleGcode(cmd, p.gcode, p.subCode)
         if r is None:
             return "unchanged"
@@ -75,7 +75,7 @@ def live_hooks(handlers, line):
 violations, cases, distinct = [], 0, set()
 for live in live_states():
     for k in range(1, MAXL + 1):
-        pool = LINES if k < 3 else LINES[:14] if k == 3 else LINES[:9]
+        pool = LINES if k < 3 else (LINES[:14] + LINES[-2:]) if k == 3 else LINES[:9]
         for lines in itertools.product(pool, repeat=k):
             for eol in EOLS:
                 for last_eol in (eol, ""):
